@@ -16,6 +16,8 @@ def e2e(mode, test, nq=60, nt=1500):
 E2E_T = e2e('transfer', 'TestVerifE2ETransfer')
 E2E_PR = e2e('pr', 'TestVerifE2EPR')
 E2E_SD = e2e('shutdown', 'TestVerifE2EShutdown')
+E2E_HS = e2e('handshake', 'TestVerifE2EHandshake', nq=192, nt=3000)
+E2E_RS = e2e('reset', 'TestVerifE2EReset')
 
 E2E_RULE = ('one case = one seeded scenario (options x initial TSNs x streams/policies x message sizes x per-packet fault schedule x heal time) run on a real '
             'association pair under testing/synctest virtual time; distinct by SHA-1 of its full API+wire log; non-trivial = at least 3 distinct event kinds and 5 events')
@@ -28,4 +30,6 @@ PROPS = {
     'C06': {'jobs': [E2E_PR, E2E_T], 'rule': E2E_RULE},
     'C07': {'jobs': [E2E_PR], 'rule': E2E_RULE},
     'C08': {'jobs': [E2E_SD], 'rule': E2E_RULE},
+    'C04': {'jobs': [E2E_HS, E2E_T], 'rule': E2E_RULE},
+    'C14': {'jobs': [E2E_RS], 'rule': E2E_RULE},
 }
